@@ -32,13 +32,15 @@ TRUSTED = ["harness/tables/sm.py (live SMConst / METRONOME / MAX_SNAP / MAX_KEYS
 MANIFEST = dict(
     text="Machine-checked theorems (Coq 8.16.1) about an executable Gallina model of SMMapSet.read (token split, header dispatch, "
          "#BPMS parsing, 4-beat slicing, Fraction(j,len), per-column head/tail pairing, times through the C10 timing-map model): "
-         "slice arithmetic places row r of n at beat 4r/n for every n divisible by 4; head/tail pairing equals 'close the open head' "
-         "whenever at most one head is open per column; reader lines/rows reading lemmas; whole-file agreement with the reference "
-         "interpreter sm_denote is established per run by in-Coq evaluation (model = implementation within 1e-6 ms, and sm_denote "
-         "evaluated on the implementation's output) rather than proved for all texts (sm_read_denotes is _partial).",
+         "slicing places row r of n at beat 4r/n for every n divisible by 4; head/tail pairing equals 'close the open head' when one "
+         "head is open per column; one chart per #NOTES token in file order; and, lifting C10's closed form offsets_on_grid_b, every "
+         "object returned by _read_notes sits at Integrate.time_of of its row's Snap with hold length = tail time - head time, for every "
+         "tempo script in the C10 domain. Whole-file agreement with the reference interpreter sm_denote (token-level parser equivalence, "
+         "completeness) is not proved for all texts (sm_read_denotes is _partial); it is established per run by in-Coq evaluation "
+         "(model = implementation within 1e-6 ms, sm_denote evaluated on the implementation's output, C10 domain checked on every text).",
     note="Trusted: Coq kernel+VM, generator/serialiser, table translator; binary64 rounding measured (tolerance 1e-6 ms) not proved. "
          "Former finding sm-read-no-stops-tag (a text without a #STOPS tag raised AttributeError) is fixed by d64b5ab; the old behaviour "
-         "survives only as a named OLD variant for the _refuted witness.",
+         "survives only as a named OLD variant for the _refuted witness; the runner accepts the current behaviour only.",
     technique="Coq proof over executable model + vm_compute correspondence against the implementation + reference interpreter",
     design="4/C02")
 
